@@ -193,39 +193,90 @@ fn build_ordered<L: flussab_aiger::Lit>(doc: &AigerDoc, swap: bool) -> OrderedAi
     }
 }
 
+thread_local! {
+    /// write another circuit with the SAME format writer first (a writer object used for several documents)
+    static WARMUP: std::cell::Cell<bool> = const { std::cell::Cell::new(false) };
+}
+
+#[derive(Clone)]
+struct SharedSink(std::rc::Rc<std::cell::RefCell<Vec<u8>>>);
+impl std::io::Write for SharedSink {
+    fn write(&mut self, b: &[u8]) -> std::io::Result<usize> {
+        self.0.borrow_mut().extend_from_slice(b);
+        Ok(b.len())
+    }
+    fn flush(&mut self) -> std::io::Result<()> {
+        Ok(())
+    }
+}
+
+fn warm_ordered<L: flussab_aiger::Lit>() -> OrderedAig<L> {
+    let l = |c: usize| L::from_code(c);
+    OrderedAig {
+        max_var_index: 4,
+        input_count: 2,
+        latches: vec![OrderedLatch {
+            next_state: l(2),
+            initialization: None,
+        }],
+        outputs: vec![l(8)],
+        and_gates: vec![OrderedAndGate { inputs: [l(6), l(3)] }],
+        ..OrderedAig::default()
+    }
+}
+
 /// which: 0 = ascii write_aig(Aig), 1 = ascii write_ordered_aig(OrderedAig), 2 = binary write_ordered_aig,
 /// 3 = ascii write_aig(Aig::from(OrderedAig))
 fn write_aiger_t<L: flussab_aiger::Lit>(doc: &AigerDoc, which: u8, swap: bool) -> Vec<u8> {
-    let mut out = vec![];
+    let warm = WARMUP.with(|c| c.get());
+    let shared = SharedSink(Default::default());
+    let mut mark = 0usize;
     {
-        let mut dw = DeferredWriter::from_write(&mut out);
+        let mut dw = DeferredWriter::from_write(shared.clone());
         prefill(&mut dw);
         match which {
-            0 => {
-                let aig = build_aig::<L>(doc);
-                flussab_aiger::ascii::Writer::<L>::new(&mut dw).write_aig(&aig);
-                let _ = dw.flush();
+            0 | 3 => {
+                let aig: Aig<L> = if which == 0 { build_aig::<L>(doc) } else { build_ordered::<L>(doc, swap).into() };
+                let mut w = flussab_aiger::ascii::Writer::<L>::new(&mut dw);
+                if warm {
+                    let first: Aig<L> = warm_ordered::<L>().into();
+                    w.write_aig(&first);
+                    let _ = w.flush();
+                    mark = shared.0.borrow().len();
+                }
+                w.write_aig(&aig);
+                let _ = w.flush();
             }
             1 => {
                 let aig = build_ordered::<L>(doc, swap);
-                flussab_aiger::ascii::Writer::<L>::new(&mut dw).write_ordered_aig(&aig);
-                let _ = dw.flush();
-            }
-            3 => {
-                // the documented conversion OrderedAig -> Aig, then the writer for unordered circuits
-                let aig: Aig<L> = build_ordered::<L>(doc, swap).into();
-                flussab_aiger::ascii::Writer::<L>::new(&mut dw).write_aig(&aig);
-                let _ = dw.flush();
+                let mut w = flussab_aiger::ascii::Writer::<L>::new(&mut dw);
+                if warm {
+                    w.write_ordered_aig(&warm_ordered::<L>());
+                    let _ = w.flush();
+                    mark = shared.0.borrow().len();
+                }
+                w.write_ordered_aig(&aig);
+                let _ = w.flush();
             }
             _ => {
                 let aig = build_ordered::<L>(doc, swap);
                 let mut w = flussab_aiger::binary::Writer::<L>::new(dw);
+                if warm {
+                    w.write_ordered_aig(&warm_ordered::<L>());
+                    let _ = w.writer.flush();
+                    mark = shared.0.borrow().len();
+                }
                 w.write_ordered_aig(&aig);
                 let _ = w.writer.flush();
             }
         }
     }
-    strip_prefill(out)
+    let out = shared.0.borrow().clone();
+    if warm {
+        out[mark..].to_vec()
+    } else {
+        strip_prefill(out)
+    }
 }
 
 fn write_aiger(doc: &AigerDoc, lt: u8, which: u8, swap: bool) -> Vec<u8> {
@@ -713,6 +764,12 @@ impl Monitor for C03 {
                     self.judge(rep, cfg, &written, &items, "write(value)->parse", items.len() >= 2);
                 }
                 PK::Aag | PK::Aig => {
+                    // one document in four is the SECOND one written with its writer object
+                    let warm = rng.chance(1, 4);
+                    WARMUP.with(|c| c.set(warm));
+                    if warm {
+                        rep.inc("choice:aiger_writer_object_reused_for_a_second_document");
+                    }
                     let binary_shape = pk == PK::Aig || rng.chance(1, 3);
                     // large documents: one section with more entries than any reservation cap (4096)
                     let long = if size >= 2000 && rng.chance(2, 3) {
